@@ -108,3 +108,15 @@ package alert
 //@   requires topicInv(t)
 //@   ensures result1 == has(t.events, event)
 //@   ensures result1 ==> result0 == *t.events[event]
+
+// Level.String indexes a package-level table; negative levels would index out of range.
+// Assumed (trusted): the table keeps its initial contents; callers establish l >= 0.
+//@ func (Level).String
+//@   trusted
+//@   requires 0 <= l
+//@   pure
+
+// Inhibitor state lives outside the modelled alert state machine.
+//@ func (*Inhibitor).Set
+//@   trusted
+//@   modifies nothing
